@@ -23,6 +23,11 @@ func prop(id, level, rule string, assumptions []string) drv.Property {
 			r := drv.Result{Case: sh.Name, Exhaustive: true}
 			c := &rt.Ctx{Prop: id, Tier: tier, Shape: sh, R: &r}
 			sh.Run(c)
+			if len(r.Viols) == 0 {
+				// a second pass in the same process: derivations that depend on what was derived before
+				// (memoised offsets or checks) show up when the order of requests differs from the first pass
+				sh.Run(c)
+			}
 			if nontrivial(sh) {
 				r.Nontrivial = 1
 			}
